@@ -105,6 +105,9 @@ def run(ctx, rep):
         check_text(crate, rep, cfg)
         check_raw_token(crate, rep, cfg)
         check_raw_flags(crate, rep, cfg)
+        # text also passes the instruction-fusion pass: it must move WriteText along unchanged (no merging, no rebuilding)
+        from props import c09
+        c09.check_only(crate, crate.one("parsing::instructions::Chunk::optimize"), rep, cfg)
 
 
 def _bool_sources(body, local, projs, depth=0, seen=None):
